@@ -219,6 +219,21 @@ fn class_of<T>(r: &Result<Result<T, tera::Error>, String>) -> String {
     }
 }
 
+/// An escape function that writes ISO-8859-1: not UTF-8 as soon as a character above U+007F is
+/// escaped (the String channels must then report `Utf8Conversion`, the writer channels carry the
+/// raw bytes)
+fn latin1_escape(input: &str, out: &mut dyn Write) -> io::Result<()> {
+    for c in input.chars() {
+        match c {
+            '<' => out.write_all(b"&lt;")?,
+            '&' => out.write_all(b"&amp;")?,
+            c if (c as u32) < 256 => out.write_all(&[c as u32 as u8])?,
+            _ => out.write_all(b"?")?,
+        }
+    }
+    Ok(())
+}
+
 struct PolicyRun {
     class: String,
     accepted: Vec<u8>,
@@ -242,11 +257,16 @@ struct Case {
     prefixes: Vec<String>,
     /// custom delimiters: block start/end, variable start/end, comment start/end (None = default)
     delims: Option<[String; 6]>,
+    /// `Tera::global_context()` entries (looked up after the call context)
+    global: BTreeMap<String, Value>,
+    /// install an escape function that transcodes to ISO-8859-1 (emits non-UTF-8 bytes)
+    latin1_escape: bool,
     features: Vec<&'static str>,
 }
 
 impl Case {
     fn tera(&self) -> Result<Tera, String> {
+        set_one_off_comparable(self);
         let mut t = Tera::default();
         if !self.prefixes.is_empty() {
             t.set_fallback_prefixes(self.prefixes.clone()).map_err(|e| format!("set_fallback_prefixes: {e}"))?;
@@ -261,6 +281,12 @@ impl Case {
                 comment_end: d[5].clone().into(),
             })
             .map_err(|e| format!("set_delimiters: {e}"))?;
+        }
+        for (k, v) in &self.global {
+            t.global_context().insert_value(k.clone(), v.clone());
+        }
+        if self.latin1_escape {
+            t.set_escape_fn(latin1_escape);
         }
         match catch(AssertUnwindSafe(|| t.add_raw_templates(self.templates.clone()))) {
             Ok(Ok(())) => Ok(t),
@@ -283,6 +309,8 @@ impl Case {
             "autoescape": self.autoescape,
             "fallback_prefixes": self.prefixes,
             "delimiters": self.delims,
+            "global_context": self.global.iter().map(|(k, v)| (k.clone(), tera_verif_harness::wire::encode(v))).collect::<BTreeMap<_, _>>(),
+            "latin1_escape": self.latin1_escape,
         })
     }
     fn from_json(j: &serde_json::Value) -> Option<Case> {
@@ -291,7 +319,7 @@ impl Case {
         for (k, v) in j["ctx"].as_object()? {
             ctx.insert(k.clone(), tera_verif_harness::wire::decode(v.as_str()?)?);
         }
-        Some(Case { templates, ctx, program: j["program"].as_str().map(|s| s.to_string()), autoescape: j["autoescape"].as_bool().unwrap_or(false), prefixes: j["fallback_prefixes"].as_array().map(|a| a.iter().filter_map(|x| x.as_str().map(|s| s.to_string())).collect()).unwrap_or_default(), delims: j["delimiters"].as_array().and_then(|a| { let v: Vec<String> = a.iter().filter_map(|x| x.as_str().map(|s| s.to_string())).collect(); <[String; 6]>::try_from(v).ok() }), features: vec![] })
+        Some(Case { templates, ctx, program: j["program"].as_str().map(|s| s.to_string()), autoescape: j["autoescape"].as_bool().unwrap_or(false), prefixes: j["fallback_prefixes"].as_array().map(|a| a.iter().filter_map(|x| x.as_str().map(|s| s.to_string())).collect()).unwrap_or_default(), delims: j["delimiters"].as_array().and_then(|a| { let v: Vec<String> = a.iter().filter_map(|x| x.as_str().map(|s| s.to_string())).collect(); <[String; 6]>::try_from(v).ok() }), global: j["global_context"].as_object().map(|o| o.iter().filter_map(|(k, v)| Some((k.clone(), tera_verif_harness::wire::decode(v.as_str()?)?))).collect()).unwrap_or_default(), latin1_escape: j["latin1_escape"].as_bool().unwrap_or(false), features: vec![] })
     }
 }
 
@@ -634,6 +662,8 @@ struct Cfg {
     prefix: &'static str,
     /// 0 = default delimiters, 1 = `[% %] [[ ]] [# #]`, 2 = one 2-byte character each
     delims: usize,
+    /// spread the variables over the call context and `global_context()`
+    globals: bool,
 }
 
 const DELIM_SETS: [[&str; 6]; 2] = [["[%", "%]", "[[", "]]", "[#", "#]"], ["§", "¶", "«", "»", "¿", "¡"]];
@@ -690,7 +720,28 @@ fn build_case(ops: &[Op], cfg: Cfg) -> GenCase {
     }
     let mut vars = BTreeMap::new();
     collect_vars(ops, &mut vars);
-    let ctx: BTreeMap<String, Value> = vars.iter().map(|(k, v)| (k.clone(), Value::from(v.as_str()))).collect();
+    // where each variable lives: call context only / global context only / both (the call
+    // context must win; the global one holds a decoy)
+    let mut ctx: BTreeMap<String, Value> = BTreeMap::new();
+    let mut global: BTreeMap<String, Value> = BTreeMap::new();
+    for (k, v) in &vars {
+        let n: usize = k.trim_start_matches(|c: char| !c.is_ascii_digit()).parse().unwrap_or(0);
+        match if cfg.globals { n % 4 } else { 0 } {
+            1 => {
+                global.insert(k.clone(), Value::from(v.as_str()));
+            }
+            2 | 3 => {
+                ctx.insert(k.clone(), Value::from(v.as_str()));
+                global.insert(k.clone(), Value::from(format!("<GLOBAL-DECOY-{k}>")));
+            }
+            _ => {
+                ctx.insert(k.clone(), Value::from(v.as_str()));
+            }
+        }
+    }
+    if cfg.globals {
+        global.insert("only_global_unused".into(), Value::from(1));
+    }
     let mut w = Vec::new();
     wire_ops(ops, None, &mut w);
     let mut entries = vec![Entry::Template(main.clone())];
@@ -708,13 +759,16 @@ fn build_case(ops: &[Op], cfg: Cfg) -> GenCase {
     if !cfg.prefix.is_empty() {
         features.push("fallback_prefix");
     }
+    if cfg.globals {
+        features.push("global_context");
+    }
     if cfg.delims != 0 {
         features.push(if cfg.delims == 1 { "delimiters_ascii" } else { "delimiters_2byte_chars" });
     }
     let delims = (cfg.delims != 0).then(|| DELIM_SETS[cfg.delims - 1].map(|x| x.to_string()));
     let prefixes: Vec<String> = if cfg.prefix.is_empty() { vec![] } else { vec!["unused/".to_string(), cfg.prefix.to_string()] };
     GenCase {
-        case: Case { templates, ctx, program: Some(w.join(" ")), autoescape, prefixes, delims, features },
+        case: Case { templates, ctx, program: Some(w.join(" ")), autoescape, prefixes, delims, global, latin1_escape: false, features },
         entries,
         ops: ops.to_vec(),
     }
@@ -731,6 +785,8 @@ fn fixed_cases() -> Vec<(Case, Vec<Entry>)> {
                 program: None,
                 autoescape: tpls[0].0.ends_with(".html"),
                 delims: if tpls[0].0.starts_with("delims1") { Some(DELIM_SETS[0].map(|x| x.to_string())) } else if tpls[0].0.starts_with("delims2") { Some(DELIM_SETS[1].map(|x| x.to_string())) } else { None },
+                global: if tpls[0].0.starts_with("globals") { [("both", Value::from("<GLOBAL>")), ("onlyg", Value::from("<G&>"))].into_iter().map(|(k, v)| (k.to_string(), v)).collect() } else { BTreeMap::new() },
+                latin1_escape: tpls[0].0.starts_with("latin1"),
                 prefixes: if tpls.iter().any(|(n, _)| n.starts_with("themes/cool/")) { vec!["themes/missing/".to_string(), "themes/cool/".to_string()] } else { vec![] },
                 features: feats,
             },
@@ -786,7 +842,8 @@ fn fixed_cases() -> Vec<(Case, Vec<Entry>)> {
              {{% for v in m | values %}}{{{{ v }}}},{{% endfor %}}|{{% for p in m | pairs %}}{{{{ p[0] }}}}{{{{ p[1] }}}}{{% endfor %}}|\
              {{% set m2 = {{...outer, \"zz\": x0, ...m, \"aa\": x1}} %}}{{{{ m2 | values }}}}|{{{{ m2 | keys }}}}|{{% for k, v in m2 %}}{{{{ k }}}}{{% endfor %}}|{{{{ m2 }}}}|\
              {{% set g = items | group_by(attribute=\"g\") %}}{{{{ g }}}}|{{{{ g | keys }}}}|{{{{ g | values }}}}|{{% for k, v in g %}}{{{{ k }}}}:{{{{ v | length }}}};{{% endfor %}}|\
-             {{{{ [m, m2] }}}}|{{{{ __tera_context }}}}"
+             {{{{ [m, m2] }}}}|{{{{ __tera_context }}}}|\
+             {{% set ms = [{{\"a\": x0, \"b\": x1}}, {{\"b\": x1, \"a\": x0}}, {{\"a\": x0, \"b\": x1}}, {{\"a\": x1, \"b\": x0}}, {{\"a\": x0, \"b\": x1}}, {{\"b\": x0, \"a\": x1}}, {{\"a\": x0, \"b\": x1, \"c\": x2}}, {{\"c\": x2, \"a\": x0, \"b\": x1}}, {{\"a\": x0, \"b\": x2}}, {{\"a\": x0, \"b\": x1}}] %}}{{{{ ms | unique }}}}|{{{{ ms | unique | length }}}}|{{{{ [...ms, ...ms] | unique | length }}}}|{{{{ sermaps | unique | length }}}}|{{{{ sermaps | unique }}}}"
         );
         let tpl: &'static str = Box::leak(tpl.into_boxed_str());
         let mut ctx: Vec<(&str, Value)> = Vec::new();
@@ -808,6 +865,24 @@ fn fixed_cases() -> Vec<(Case, Vec<Entry>)> {
             })
             .collect();
         ctx.push(("items", Value::from(items)));
+        // equal maps that are separate instances (what a serialized Vec<HashMap> gives)
+        let sermaps: Vec<Value> = (0..12)
+            .map(|i| {
+                let mut e = tera::Map::new();
+                if i % 2 == 0 {
+                    e.insert("p".into(), Value::from(1));
+                    e.insert("q".into(), Value::from("two"));
+                } else {
+                    e.insert("q".into(), Value::from("two"));
+                    e.insert("p".into(), Value::from(1));
+                }
+                if i % 5 == 4 {
+                    e.insert("r".into(), Value::from(i as i64));
+                }
+                Value::from(e)
+            })
+            .collect();
+        ctx.push(("sermaps", Value::from(sermaps)));
         add(
             &[("purity.html", tpl), ("purity.txt", tpl)],
             ctx,
@@ -840,6 +915,51 @@ fn fixed_cases() -> Vec<(Case, Vec<Entry>)> {
         ],
         vec!["fallback_prefix_fixed"],
     );
+    // a non-empty global context: keys only there, only in the call context, and in both (the
+    // call context wins) — on every channel pair
+    add(
+        &[
+            ("globals.html", "{% extends \"globals_base.html\" %}{% block b %}B[{{ both }}|{{ onlyg }}|{{ onlyc }}]{{ super() }}{% include \"globals_inc.html\" %}{{<gc both={both} g={onlyg} />}}{% endblock %}"),
+            ("globals_base.html", "base<{{ both }}|{{ onlyg }}|{{ onlyc }}>{% block b %}pb {{ both }}{% endblock %}"),
+            ("globals_inc.html", "inc({{ both }}|{{ onlyg }}|{{ onlyc }})"),
+            ("globals_ui.html", "{% component gc(both, g = \"d\") %}c[{{ both }}|{{ g }}]{% endcomponent gc %}"),
+        ],
+        vec![("both", Value::from("<CALL>")), ("onlyc", Value::from("c&"))],
+        vec![
+            t("globals.html"),
+            t("globals_base.html"),
+            t("globals_inc.html"),
+            Entry::Block("globals.html".into(), "b".into()),
+            Entry::Block("globals_base.html".into(), "b".into()),
+            Entry::Component { name: "gc".into(), body: None, autoescape: true },
+            Entry::Str { source: "{{ both }}|{{ onlyg }}|{{ onlyc }}{% include \"globals_inc.html\" %}".into(), autoescape: true },
+        ],
+        vec!["global_context_fixed"],
+    );
+    // an escape function that emits bytes which are not UTF-8: String channels must be the
+    // Utf8Conversion error exactly when the writer channel's bytes are not UTF-8
+    for v in ["é<ü>", "ascii<only>", "日本"] {
+        add(
+            &[
+                ("latin1.html", "{% extends \"latin1_base.html\" %}{% block b %}[{{ v }}]{% endblock %}"),
+                ("latin1_base.html", "b:{% block b %}{% endblock %}"),
+                ("latin1_ui.html", "{% component lc(v) %}({{ v }}){% endcomponent lc %}\n{% component lsafe(v) %}({{ v | safe }}){% endcomponent lsafe %}"),
+                ("latin1_plain.html", "{{ v }} and {{ v | safe }}"),
+            ],
+            vec![("v", Value::from(v))],
+            vec![
+                t("latin1.html"),
+                t("latin1_plain.html"),
+                Entry::Block("latin1.html".into(), "b".into()),
+                Entry::Component { name: "lc".into(), body: None, autoescape: true },
+                Entry::Component { name: "lc".into(), body: None, autoescape: false },
+                Entry::Component { name: "lsafe".into(), body: None, autoescape: true },
+                Entry::Str { source: "<{{ v }}>".into(), autoescape: true },
+                Entry::Str { source: "<{{ v }}>".into(), autoescape: false },
+            ],
+            vec!["byte_producing_escape_fn"],
+        );
+    }
     // component recursion right at the limit (20): every channel must agree at 17..=23 levels
     for n in 17i64..=23 {
         add(
@@ -1085,7 +1205,16 @@ fn check_entry(tera: &Tera, entry: &Entry, ctx: &Context, stats: &mut Stats, rng
     let s = catch(AssertUnwindSafe(|| run_string(tera, entry, ctx)));
     stats.oracle_checks += 1;
     let s_class = class_of(&s);
-    if s_class != refr.class {
+    // bytes that are not UTF-8 cannot be a String: the String channel must then be the
+    // Utf8Conversion error (not lossy text), and only then
+    let writer_utf8 = std::str::from_utf8(&refr.full).is_ok();
+    if refr.class == "ok" && !writer_utf8 {
+        let is_utf8_err = matches!(&s, Ok(Err(e)) if matches!(e.kind(), ErrorKind::Utf8Conversion));
+        stats.count("non_utf8_output");
+        if !is_utf8_err {
+            return (refr.clone_ref(), Some(Failure { what: format!("the writer variant wrote bytes that are not UTF-8; the String variant must be the Utf8Conversion error but ended `{s_class}`"), policy: None }));
+        }
+    } else if s_class != refr.class {
         return (refr.clone_ref(), Some(Failure { what: format!("String variant ended `{s_class}` but the writer variant ended `{}`", refr.class), policy: None }));
     }
     if let Ok(Ok(text)) = &s {
@@ -1104,7 +1233,8 @@ fn check_entry(tera: &Tera, entry: &Entry, ctx: &Context, stats: &mut Stats, rng
     // nothing registered (no include, no component call)
     if let Entry::Str { source, autoescape } = entry {
         // (`one_off` always uses the default delimiters)
-        let default_delims = tera.render_str("{{ 1 }}{% if true %}{% endif %}{# c #}", &Context::new(), false).map(|s| s == "1").unwrap_or(false);
+        // (`one_off` is a default instance: default delimiters, empty global context, default escaping)
+        let default_delims = ONE_OFF_COMPARABLE.with(|c| c.get());
         if default_delims && !source.contains("include") && !source.contains("{{<") && !source.contains("{% <") {
             let o = catch(AssertUnwindSafe(|| Tera::one_off(source, ctx, *autoescape)));
             stats.oracle_checks += 1;
@@ -1179,6 +1309,15 @@ fn check_entry(tera: &Tera, entry: &Entry, ctx: &Context, stats: &mut Stats, rng
         }
     }
     (refr, None)
+}
+
+thread_local! {
+    /// whether the case being checked on this thread is configured like `Tera::default()`
+    static ONE_OFF_COMPARABLE: std::cell::Cell<bool> = const { std::cell::Cell::new(false) };
+}
+
+fn set_one_off_comparable(case: &Case) {
+    ONE_OFF_COMPARABLE.with(|c| c.set(case.delims.is_none() && case.global.is_empty() && !case.latin1_escape));
 }
 
 struct VecAdapter<'a>(&'a mut Vec<u8>);
@@ -1431,11 +1570,134 @@ fn concurrency_burst(rounds: usize, threads: usize) -> (u64, Option<(String, ser
     }
 }
 
+// ------------------------------------------------------------------ clones
+/// `Tera::clone()` followed by divergent registrations, renders on original and clone
+/// interleaved: each must render like a FRESH instance built with the same history (nothing may
+/// be shared between an engine and its clone but immutable data).
+fn clone_divergence() -> (u64, Option<(String, serde_json::Value)>) {
+    let prefixes = vec!["themes/hot/".to_string(), "themes/cool/".to_string()];
+    let common: Vec<(String, String)> = vec![
+        ("themes/cool/page.html".into(), "{% extends \"base.html\" %}{% block b %}cool-page {{ v }}{% include \"part.html\" %}{% endblock %}".into()),
+        ("themes/cool/base.html".into(), "cool-base[{% block b %}{% endblock %}]".into()),
+        ("themes/cool/part.html".into(), "<cool-part>".into()),
+        ("themes/cool/ui.html".into(), "{% component who() %}cool-comp{% endcomponent who %}".into()),
+        ("site.html".into(), "site:{% include \"part.html\" %}{{<who />}}".into()),
+    ];
+    let hot: Vec<(String, String)> = vec![
+        ("themes/hot/page.html".into(), "{% extends \"base.html\" %}{% block b %}HOT-page {{ v }}{% include \"part.html\" %}{% endblock %}".into()),
+        ("themes/hot/part.html".into(), "<HOT-part>".into()),
+        ("themes/hot/ui.html".into(), "{% component who() %}HOT-comp{% endcomponent who %}".into()),
+    ];
+    let late: Vec<(String, String)> = vec![("themes/hot/base.html".into(), "HOT-base[{% block b %}{% endblock %}]".into())];
+    let build = |sets: &[&Vec<(String, String)>]| -> Result<Tera, String> {
+        let mut t = Tera::default();
+        t.set_fallback_prefixes(prefixes.clone()).map_err(|e| e.to_string())?;
+        for set in sets {
+            t.add_raw_templates((*set).clone()).map_err(|e| e.to_string())?;
+        }
+        Ok(t)
+    };
+    let mut ctx = Context::new();
+    ctx.insert_value("v", Value::from("<v>"));
+    let entries = vec![
+        Entry::Template("page.html".into()),
+        Entry::Template("part.html".into()),
+        Entry::Template("site.html".into()),
+        Entry::Template("base.html".into()),
+        Entry::Block("page.html".into(), "b".into()),
+        Entry::Component { name: "who".into(), body: None, autoescape: true },
+        Entry::Str { source: "{% include \"part.html\" %}+{% include \"page.html\" %}".into(), autoescape: true },
+    ];
+    let both_channels = |t: &Tera, e: &Entry| -> (String, Vec<u8>, String) {
+        let w = run_policy(t, e, &ctx, Policy::All);
+        let s = catch(AssertUnwindSafe(|| run_string(t, e, &ctx)));
+        let st = match &s {
+            Ok(Ok(x)) => format!("ok {x}"),
+            other => class_of(other),
+        };
+        (w.class, w.accepted, st)
+    };
+    let mut checks = 0u64;
+    let fail = |what: String, history: &str| {
+        Some((
+            what,
+            json!({"scenario": "clone-divergence", "history": history, "prefixes": prefixes, "common": common, "hot": hot, "late": late,
+                   "rerun": "harness/target/release/c18 --replay <this file>"}),
+        ))
+    };
+    let (Ok(fresh_orig), Ok(fresh_clone), Ok(fresh_orig2)) = (build(&[&common]), build(&[&common, &hot]), build(&[&common, &late])) else {
+        return (0, Some(("the clone scenario templates are rejected".into(), json!({"stage": "corpus"}))));
+    };
+    for order in 0..3 {
+        // history: original built and rendered; clone taken; the CLONE gets the hotter theme;
+        // then renders alternate between original and clone in three different orders
+        let Ok(orig) = build(&[&common]) else { break };
+        for e in &entries {
+            let _ = both_channels(&orig, e);
+        }
+        let mut clone = orig.clone();
+        if clone.add_raw_templates(hot.clone()).is_err() {
+            break;
+        }
+        for e in &entries {
+            let (first, second): (&Tera, &Tera) = if order == 1 { (&clone, &orig) } else { (&orig, &clone) };
+            let a = both_channels(first, e);
+            let b = both_channels(second, e);
+            if order == 2 {
+                let _ = both_channels(&orig, e);
+            }
+            let (o, c) = if order == 1 { (b, a) } else { (a, b) };
+            let c = if order == 2 { both_channels(&clone, e) } else { c };
+            checks += 2;
+            let want_o = both_channels(&fresh_orig, e);
+            let want_c = both_channels(&fresh_clone, e);
+            if c != want_c {
+                return (checks, fail(format!("a clone that got more templates renders {} differently from a fresh instance with the same history: clone `{}` {:?}, fresh `{}` {:?}", e.to_json(), c.0, String::from_utf8_lossy(&c.1), want_c.0, String::from_utf8_lossy(&want_c.1)), "original rendered, cloned, clone += hot theme, renders interleaved"));
+            }
+            if o != want_o {
+                return (checks, fail(format!("the original renders {} differently after its clone diverged: `{}` {:?}, fresh `{}` {:?}", e.to_json(), o.0, String::from_utf8_lossy(&o.1), want_o.0, String::from_utf8_lossy(&want_o.1)), "original rendered, cloned, clone += hot theme, renders interleaved"));
+            }
+        }
+        // the other way round: the ORIGINAL gets a template after the clone was taken
+        let Ok(mut orig) = build(&[&common]) else { break };
+        let clone = orig.clone();
+        for e in &entries {
+            let _ = both_channels(&clone, e);
+        }
+        if orig.add_raw_templates(late.clone()).is_err() {
+            break;
+        }
+        for e in &entries {
+            let c = both_channels(&clone, e);
+            let o = both_channels(&orig, e);
+            let c2 = both_channels(&clone, e);
+            checks += 3;
+            let want_o = both_channels(&fresh_orig2, e);
+            let want_c = both_channels(&fresh_orig, e);
+            if o != want_o {
+                return (checks, fail(format!("an engine that got a template after being cloned renders {} differently from a fresh instance with the same history: `{}` {:?}, fresh `{}` {:?}", e.to_json(), o.0, String::from_utf8_lossy(&o.1), want_o.0, String::from_utf8_lossy(&want_o.1)), "cloned, clone rendered, original += late base, renders interleaved"));
+            }
+            if c != want_c || c2 != want_c {
+                return (checks, fail(format!("a clone renders {} differently after the original changed: `{}` {:?}, fresh `{}` {:?}", e.to_json(), c2.0, String::from_utf8_lossy(&c2.1), want_c.0, String::from_utf8_lossy(&want_c.1)), "cloned, clone rendered, original += late base, renders interleaved"));
+            }
+        }
+    }
+    (checks, None)
+}
+
 // ------------------------------------------------------------------ main
 fn replay(path: &str, env: &Env) {
     let text = std::fs::read_to_string(path).expect("replay file");
     let j: serde_json::Value = serde_json::from_str(&text).expect("replay json");
     let j = if j.get("replay").is_some() { j["replay"].clone() } else { j };
+    if j["scenario"].as_str() == Some("clone-divergence") {
+        println!("scenario: Tera::clone() + divergent template sets + interleaved renders (see `history`, `common`, `hot`, `late` in the file)");
+        match clone_divergence() {
+            (n, None) => println!("oracle: clones and originals render like fresh instances ({n} checks)"),
+            (_, Some((what, _))) => println!("oracle: FAILS: {what}"),
+        }
+        return;
+    }
     let case = Case::from_json(&j["case"]).expect("case");
     let entry = Entry::from_json(&j["entry"]).expect("entry");
     let policy = j["policy"].as_str().and_then(Policy::parse);
@@ -1525,6 +1787,53 @@ fn main() {
         }
     }
 
+    // ---- purity repeats: the order-revealing case 60 times on one instance, on fresh instances
+    // and (above) on 8 threads: all outputs identical
+    for (case, entries) in fixed_cases().into_iter().filter(|(c, _)| c.features.contains(&"spread_maps")) {
+        let Ok(tera) = case.tera() else { continue };
+        for entry in &entries {
+            let ctx = ctx_for(&case, &tera, entry);
+            let first = reference(&tera, entry, &ctx);
+            let mut differs: Option<String> = None;
+            for i in 0..env.budget(60, 600) {
+                let r = reference(&tera, entry, &ctx);
+                stats.oracle_checks += 1;
+                stats.count("purity_repeats");
+                if r.class != first.class || r.full != first.full {
+                    differs = Some(format!("render #{} on the same instance differs from the first", i + 2));
+                    break;
+                }
+            }
+            if differs.is_none() {
+                for i in 0..env.budget(6, 40) {
+                    let Ok(fresh) = case.tera() else { break };
+                    let r = reference(&fresh, entry, &ctx);
+                    stats.oracle_checks += 1;
+                    stats.count("purity_fresh_instances");
+                    if r.class != first.class || r.full != first.full {
+                        differs = Some(format!("the render on fresh instance #{} differs from the first instance", i + 1));
+                        break;
+                    }
+                }
+            }
+            if let Some(d) = differs {
+                n_fail += 1;
+                report.violation("property", format!("rendering is not repeatable: {d}"), replay_json(&case, entry, Some(&Policy::All), json!({"oracle": "all repeats identical", "note": "--replay renders twice and on 8 threads; the difference shows up within a few dozen renders"})));
+                break;
+            }
+        }
+    }
+    // ---- a clone must render like a fresh instance built with the same history
+    {
+        let (n, fail) = clone_divergence();
+        stats.oracle_checks += n;
+        report.count_n("clone_divergence.checks", n);
+        if let Some((what, replay)) = fail {
+            n_fail += 1;
+            report.violation("property", what, replay);
+        }
+    }
+
     // ---- concurrency burst on one shared instance
     {
         let t0 = std::time::Instant::now();
@@ -1568,7 +1877,7 @@ fn main() {
                         let allow_fail = r.chance(1, 8);
                         let mut g = Gen { rng: &mut r, counter: 0, allow_fail };
                         let ops = g.ops(Flags { depth: 0, blocks_ok: true, nested_parent_ok: true, super_ok: false, body_ok: false, ascii: false }, 6);
-                        let cfg = Cfg { ae: autoescape, prefix: if idx % 3 == 2 { "themes/cool/" } else { "" }, delims: match idx % 5 { 1 => 1, 3 => 2, _ => 0 } };
+                        let cfg = Cfg { ae: autoescape, prefix: if idx % 3 == 2 { "themes/cool/" } else { "" }, delims: match idx % 5 { 1 => 1, 3 => 2, _ => 0 }, globals: idx % 2 == 0 };
                         let autoescape = cfg;
                         let gc = build_case(&ops, autoescape);
                         let tera = match gc.case.tera() {
